@@ -20,7 +20,7 @@ for f in sorted(glob.glob("/verif/findings/*.json")):
         items.append(f"* `{x['id']}` — {what}")
         per[x["property"]] = per.get(x["property"], 0) + 1
 head = f"### Open known findings ({len(items)}; `findings/CNN.json` has witness and match rule for each)\n\n"
-pat = re.compile(r"### Open known findings \(.*?\n\n(?:\* `C.*\n)+", re.S)
+pat = re.compile(r"### Open known findings \([^\n]*\n\n(?:\* `C[^\n]*\n)+")
 assert pat.search(s)
 s = pat.sub(lambda m: head + "\n".join(items) + "\n", s, count=1)
 
@@ -40,7 +40,7 @@ for i in range(1, 41):
     tc += cases
     te += execs
 rows.append(f"| all | {tc:,} | | {te:,} | | | {len(items)} |")
-pat = re.compile(r"(\| id \| quick cases \|.*?\n\|---\|.*?\n)(?:\| .*\n)+")
+pat = re.compile(r"(\| id \| quick cases \|[^\n]*\n\|---\|[^\n]*\n)(?:\| [^\n]*\n)+")
 assert pat.search(s)
 s = pat.sub(lambda m: m.group(1) + "\n".join(rows) + "\n", s, count=1)
 open(D, "w").write(s)
